@@ -48,6 +48,21 @@ def run(ctx):
                     r, c = np.unravel_index(np.argmax(np.abs(real - exp).max(axis=-1)), (npix, npix))
                     ctx.violation("C05:subsample:small-grid", "subsample(npix=%d) of tile %s [%s]: pixel (row %d, col %d) is %.2e away from the centre of tile (%d, %d, %d)"
                                   % (npix, e["pos"], csname, r, c, err, n + t.K, npix * x + c, npix * y + r), {"pos": e["pos"], "cs": csname, "npix": npix})
+        # ---- the whole-sphere tile (level 0): pixel (i, j) is the centre of tile (8, j, i) - four level-1 grids side by side
+        try:
+            l0, t0 = toast.toast_tile_get_coords(toast.Tile(Pos(0, 0, 0), (None, None, None, None), False), coordsys=cs)
+            real0 = lattice.lonlat_to_vec(l0, t0)
+            exp0 = np.concatenate([np.concatenate([psi.grid(1, 0, 0, 7), psi.grid(1, 1, 0, 7)], axis=1),
+                                   np.concatenate([psi.grid(1, 0, 1, 7), psi.grid(1, 1, 1, 7)], axis=1)], axis=0)
+            d0 = np.abs(real0 - exp0).max(axis=-1)
+            ctx.count()
+            ctx.distinct((csname, (0, 0, 0), 256))
+            worst["grid256"] = max(worst["grid256"], float(d0.max()))
+            if float(d0.max()) > TOL:
+                r, c = np.unravel_index(np.argmax(d0), d0.shape)
+                ctx.violation("C05:get_coords:level0", "level-0 tile [%s]: pixel (row %d, col %d) is %.2e away from the centre of tile (8, %d, %d)" % (csname, r, c, float(d0.max()), c, r), {"cs": csname})
+        except Exception as e:  # noqa
+            ctx.violation("C05:get_coords:level0", "toast_tile_get_coords of the level-0 tile [%s] raised %r" % (csname, e), {"cs": csname})
         # ---- npix = 256
         tiles = [(n, x, y) for n in (1, 2) for y in range(2 ** n) for x in range(2 ** n)]
         if q:
